@@ -33,6 +33,7 @@ type ActiveCase struct {
 
 func runActive(c ActiveCase) *evid.Failure {
 	env := rawpeer.NewEnv(rawpeer.EnvCfg{V6: c.V6, MTU: 1500, SACK: true})
+	defer env.Close()
 	cs, serr := netsim.NewSock(env.Stack, tcp.ProtocolNumber, env.Net())
 	if serr != nil {
 		return evid.Failf("harness", "endpoint: %v", serr)
